@@ -194,6 +194,8 @@ posix_spawn(pid_t *pid, const char *path, const posix_spawn_file_actions_t *fa,
 {
 	(void)fa; (void)attr; (void)envp;
 	if (hx_nprocs >= HX_MAXPROC) {
+		/* the checkers take this line for "history too big for the harness" */
+		hx_log("ERR process table full\n");
 		errno = EAGAIN;
 		return -1;
 	}
@@ -224,7 +226,10 @@ posix_spawn(pid_t *pid, const char *path, const posix_spawn_file_actions_t *fa,
 void
 hx_drain_vtodos(void)
 {
-	for (size_t i = 0; i < hx_nprocs; i++) {
+	static size_t next_drain;
+	size_t i = next_drain;
+	next_drain = hx_nprocs;
+	for (; i < hx_nprocs; i++) {
 		struct hx_proc *p = &hx_procs[i];
 		if (p->rfd >= 0) {
 			char buf[16384];
